@@ -91,6 +91,9 @@ def generator_kwargs(opts):
     if fw in ("attrs", "dataclasses"):
         kw["post_init_converters"] = bool(opts.get("post_init_converters"))
         kw["meta"] = bool(opts.get("meta"))
+        if opts.get("decorator_kwargs"):
+            # library-only option: keyword arguments of the @attr.s / @dataclass decorator (slots=True, ...)
+            kw["attrs_kwargs" if fw == "attrs" else "dataclass_kwargs"] = dict(opts["decorator_kwargs"])
     elif fw == "base":
         kw["post_init_converters"] = bool(opts.get("post_init_converters"))
     return kw
